@@ -101,8 +101,30 @@ func (e *Engine) toInt64(v Value, t types.Type) *T {
 
 func (e *Engine) execBlock(fr *frame, b *ssa.BasicBlock, st *St, deliver func(from, to *ssa.BasicBlock, s *St)) {
 	e.Blocks++
+	e.execBlockFrom(fr, b, 0, st, deliver)
+}
+
+// forkCallee: a static call from a fork-mode frame to a fork-mode function keeps the callee's
+// paths separate in the caller as well.
+func (e *Engine) forkCallee(fr *frame, in ssa.Instruction) *ssa.Function {
+	if !fr.forkMode {
+		return nil
+	}
+	c, ok := in.(*ssa.Call)
+	if !ok || c.Common().IsInvoke() {
+		return nil
+	}
+	fn := c.Common().StaticCallee()
+	if fn == nil || fn.Blocks == nil || !e.Cfg.ForkFuncs[fn.Name()] || len(fn.FreeVars) > 0 {
+		return nil
+	}
+	return fn
+}
+
+func (e *Engine) execBlockFrom(fr *frame, b *ssa.BasicBlock, start int, st *St, deliver func(from, to *ssa.BasicBlock, s *St)) {
 	top := len(e.posStack) - 1
-	for _, in := range b.Instrs {
+	for idx := start; idx < len(b.Instrs); idx++ {
+		in := b.Instrs[idx]
 		if st.pc.IsFalse() {
 			return
 		}
@@ -113,6 +135,32 @@ func (e *Engine) execBlock(fr *frame, b *ssa.BasicBlock, st *St, deliver func(fr
 		}
 		if p := in.Pos(); p.IsValid() {
 			e.posStack[top] = p
+		}
+		if fn := e.forkCallee(fr, in); fn != nil {
+			call := in.(*ssa.Call)
+			args := make([]Value, len(call.Call.Args))
+			for i, a := range call.Call.Args {
+				args[i] = e.val(st, a)
+			}
+			rets := e.callMulti(st, fn, args, nil)
+			for k, r := range rets {
+				if r.st.pc.IsFalse() {
+					continue
+				}
+				var cont *St
+				if k == len(rets)-1 {
+					cont = st
+				} else {
+					cont = &St{env: make(map[ssa.Value]Value, len(st.env)+8)}
+					for kk, vv := range st.env {
+						cont.env[kk] = vv
+					}
+				}
+				cont.pc, cont.heap = r.st.pc, r.st.heap
+				cont.env[call] = pack(r.vals)
+				e.execBlockFrom(fr, b, idx+1, cont, deliver)
+			}
+			return
 		}
 		switch x := in.(type) {
 		case *ssa.Phi:
@@ -133,7 +181,7 @@ func (e *Engine) execBlock(fr *frame, b *ssa.BasicBlock, st *St, deliver func(fr
 				return
 			}
 			tpc, fpc := e.S.And(st.pc, c), e.S.And(st.pc, e.S.Not(c))
-			if e.Cfg.PruneBranch && e.booting == 0 {
+			if (e.Cfg.PruneBranch || fr.forkMode) && e.booting == 0 {
 				if !tpc.IsFalse() && !e.feasible(tpc) {
 					tpc = e.S.False
 				}
